@@ -12,7 +12,7 @@ EXPLANATION = (
     "is the AND over all faces; the volume safety is the minimum over all faces starting from "
     "+inf; the track-level safety is the minimum over all levels 0..level; the MSC displacement "
     "uses exactly that safety.")
-NOT_DECIDED = "arithmetic of calc_normal/calc_intersections for the admitted surfaces; tolerances"
+NOT_DECIDED = ('arithmetic of calc_normal/calc_intersections for the admitted surfaces; tolerances. One known finding (degenerate +infinity return at a sphere centre / cylinder axis) is listed in known_findings.json')
 
 TECHNIQUE = ('compile-time static_assert witness over the surface-type traits; CFG guard dominance and reaching-definition shape (running min from +inf inside the loop) for the safety reductions')
 
